@@ -236,7 +236,7 @@ pub fn replay(ctx: &Arc<Ctx>, v: &Value) {
 pub fn run(ctx: &Arc<Ctx>) {
     refmodels::selftest::run(&["sm3", "sm9"]).unwrap_or_else(|e| ctx.machinery_error(format!("reference self-test failed: {}", e)));
     let n = sm9::params().n.clone();
-    ctx.set_rule("stateright BFS over the man-in-the-middle choices for the two deliveries R_A->B and R_B->A, each in {pass, re-randomised Jacobian representation, affine as decoded from the 65-byte wire form, -R, 2R, P1, off-curve, point at infinity}, on the real exch_step_1a / 1b / 2a with ephemeral scalars fixed through the RNG seam, per configuration (master {Annex ke, seeded} x identity pairs {Alice/Bob, ''/x, seeded} and, on honest runs, identities a normalising implementation would alter: trailing / leading white space, line ends, NUL, case, trailing hid byte); honest paths for every klen 1..=128 (thorough 400) and klen in {8160, 8191, 8192, 8193, 8225}; key objects holding Ppub-e / de in Jacobian representations with structured Z; master-key objects that hold only the public key. Invariant: honest deliveries (incl. re-randomised) give SK_A = SK_B = KDF(ID_A||ID_B||R_A||R_B||g1||g2||g3) of the reference (incl. the GM/T 0044.5 example); an off-curve R is refused by the step that receives it; any other altered R makes the two keys differ; no panic.");
+    ctx.set_rule("stateright BFS over the man-in-the-middle choices for the two deliveries R_A->B and R_B->A, each in {pass, re-randomised Jacobian representation, affine as decoded from the 65-byte wire form, -R, 2R, P1, off-curve, point at infinity}, on the real exch_step_1a / 1b / 2a with ephemeral scalars fixed through the RNG seam, per configuration (master {Annex ke, seeded} x identity pairs {Alice/Bob, ''/x, seeded} and, on honest runs, identities a normalising implementation would alter: trailing / leading white space, line ends, NUL, case, trailing hid byte); honest paths for every klen 1..=128 (thorough 400) and klen in {8160, 8191, 8192, 8193, 8225, 2^16+1, 2^24+1}; key objects holding Ppub-e / de in Jacobian representations with structured Z; master-key objects that hold only the public key. Invariant: honest deliveries (incl. re-randomised) give SK_A = SK_B = KDF(ID_A||ID_B||R_A||R_B||g1||g2||g3) of the reference (incl. the GM/T 0044.5 example); an off-curve R is refused by the step that receives it; any other altered R makes the two keys differ; no panic.");
     let mut g = SplitMix::new(ctx.seed, "c17");
     let annex = Config { ke: "0002E65B0762D042F51F0D23542B13ED8CFA2E9A0E7206361E013A283905E31F".into(), ida: "Alice".into(), idb: "Bob".into(), ra: "00005879DD1D51E175946F23B1B41E93BA31C584AE59A426EC1046A4D03B06C8".into(), rb: "00018B98C44BEF9F8537FB7D071B2C928B3BC65BD3D69E1EEE213564905634FE".into() };
     let seeded_ke = hexbig(&g.nonzero_below(&n));
@@ -316,6 +316,10 @@ pub fn run(ctx: &Arc<Ctx>) {
     // key lengths around the first carry of the KDF block counter into its second byte (256 blocks of 32 bytes)
     for klen in [8160usize, 8191, 8192, 8193, 8225] {
         cases.push(Case { cfg: cfgs[0].clone(), klen, adv: [0, 0], tag: "honest/klen>=8160".into() });
+    }
+    // a key of 2^24 + 1 bytes: the block count no longer fits a 24-bit mantissa (and 2^16 + 1: nor 16 bits)
+    for klen in [65537usize, (1 << 24) + 1] {
+        cases.push(Case { cfg: cfgs[0].clone(), klen, adv: [0, 0], tag: "honest/klen=2^k+1".into() });
     }
     ctx.note_bound(format!("{} configurations, {} runs", cfgs.len(), cases.len()));
     ctx.sample(serde_json::to_value(&cases[7]).unwrap());
